@@ -1,5 +1,7 @@
 // sim: engines (C10 fault enumeration, C12 history search, C14 scheduled threads), worker loop and CLI.
 // Uninstrumented by coverage; decides nothing by wall clock.
+#include <sys/personality.h>
+#include <unistd.h>
 #include "gen.h"
 #include "plan.h"
 #include "rt.h"
@@ -56,6 +58,10 @@ static void exec_seq(const Plan& pl, const RunCtl& ctl, RunOut& out) {
 static uint64_t run_digest(const RunOut& r) {
   uint64_t h = 1469598103934665603ull;
   auto mixin = [&](uint64_t v) { h ^= v; h *= 1099511628211ull; h ^= h >> 29; };
+  if (getenv("SIM_DUMP_OPS")) {           // debugging aid: per-operation digests
+    for (const OpResult& o : r.setup.res) fprintf(stderr, "OPDIG setup op=%d outcome=%d dig=%016" PRIx64 " allocs=%" PRId64 "\n", o.op, o.outcome, o.digest, o.allocs);
+    for (size_t t = 0; t < r.tasks.size(); ++t) for (const OpResult& o : r.tasks[t].res) fprintf(stderr, "OPDIG task=%zu op=%d outcome=%d dig=%016" PRIx64 " allocs=%" PRId64 "\n", t, o.op, o.outcome, o.digest, o.allocs);
+  }
   for (const OpResult& o : r.setup.res) { mixin((uint64_t)o.op); mixin(o.digest); }
   for (const TaskOut& t : r.tasks) for (const OpResult& o : t.res) { mixin((uint64_t)o.op); mixin(o.digest); }
   return h;
@@ -386,12 +392,16 @@ static bool case_c14(const Plan& pl0, Stats& st, Violation& v) {
     if (ft.op >= 0) rt_arena_expect_leaks(); else rt_arena_preserve_live();
     rt_env_release();
     ++st.evals; st.switches += sr.switches; st.lib_preempt += sr.lib_preemptions; st.static_checks += cc.static_checks; st.colocated += cc.colocated;
-    uint64_t h = 1469598103934665603ull; uint64_t steps = 0;
-    for (size_t k = 0; k < nlog; ++k) { h ^= ((uint64_t)log[k].task << 56) ^ (log[k].ran << 20) ^ ((uint64_t)log[k].at_guard << 2) ^ (uint64_t)log[k].why; h *= 1099511628211ull; h ^= h >> 29; steps += log[k].ran; if (log[k].why == 1) ++st.yields_cb; }
+    uint64_t h = 1469598103934665603ull, hd = 1469598103934665603ull; uint64_t steps = 0;
+    // h identifies the interleaving (distinct-interleavings measure); hd, which goes into the case digest, leaves the edge ids out:
+    // which of two sibling edges a sanitizer check takes (UBSan's vptr type cache: hit or miss) is not a property of the case
+    for (size_t k = 0; k < nlog; ++k) { h ^= ((uint64_t)log[k].task << 56) ^ (log[k].ran << 20) ^ ((uint64_t)log[k].at_guard << 2) ^ (uint64_t)log[k].why; h *= 1099511628211ull; h ^= h >> 29;
+      hd ^= ((uint64_t)log[k].task << 56) ^ (log[k].ran << 20) ^ (uint64_t)log[k].why; hd *= 1099511628211ull; hd ^= hd >> 29; steps += log[k].ran; if (log[k].why == 1) ++st.yields_cb; }
     st.steps += steps;
+    if (getenv("SIM_DUMP_OPS")) for (size_t k = 0; k < nlog; ++k) fprintf(stderr, "SEGLOG rep=%d k=%zu task=%d ran=%" PRIu64 " at=%u why=%d\n", rep, k, log[k].task, log[k].ran, log[k].at_guard, log[k].why);
     if (sr.tasks_preempted_in_lib >= 2 && rep == 0) { ++st.runs_two_preempted; st.keys.insert(h); }
     if (!have_ref) run_ref();
-    if (rep == 0) st.digest = run_digest(ref) ^ (h * 0x9E3779B97F4A7C15ull);
+    if (rep == 0) st.digest = run_digest(ref) ^ (hd * 0x9E3779B97F4A7C15ull);
     // explicit schedule for the replay file
     Plan exp = pl; if (!cc.explicit_sched) { exp.sched = cc.taken; }
     if (ft.op >= 0) { exp.faults.clear(); exp.faults.push_back(pl.faults[0]); }
@@ -491,6 +501,15 @@ static void print_stats(FILE* f, const Stats& st) {
 }
 
 int main(int argc, char** argv) {
+  // Address-space randomisation off (re-exec once): which entries collide in UBSan's vptr type cache, and anything else that
+  // looks at absolute addresses, is then the same in every process.
+  if (!getenv("SIM_ASLR_OFF") && !rt_on_valgrind()) {
+    int pers = personality(0xffffffff);
+    if (pers != -1 && !(pers & ADDR_NO_RANDOMIZE) && personality(pers | ADDR_NO_RANDOMIZE) != -1) {
+      setenv("SIM_ASLR_OFF", "1", 1);
+      execv("/proc/self/exe", argv);
+    }
+  }
   std::set_terminate(on_terminate);
   if (argc < 2) { fprintf(stderr, "usage: sim gen|exec|worker ...\n"); return 2; }
   std::string cmd = argv[1];
